@@ -139,8 +139,17 @@ def run_dedicated(beh, rate, stop, late_wins, keep_results, abandon='close', max
         def kill(self, pid, sig):
             return kill(pid, sig)
 
-    olds = (eqm.mp, eqm.time, eqm.os)
-    eqm.mp, eqm.time, eqm.os = mpf, time_fn, FakeOS(eqm.os)
+    # the fakes are installed as the module-level names the module under test imported (whatever it imported) and, for
+    # os.kill, in the os module itself, for the duration of this scenario
+    import os as _os
+    import time as _time
+    saved = {}
+    for nm, fake in (('mp', mpf), ('multiprocessing', mpf), ('time', time_fn), ('os', FakeOS(_os))):
+        if hasattr(eqm, nm):
+            saved[nm] = getattr(eqm, nm)
+            setattr(eqm, nm, fake)
+    real_kill = _os.kill
+    _os.kill = kill
     try:
         player, extractor, comparator = make_functions(beh, ids, sched, state)
 
@@ -200,7 +209,9 @@ def run_dedicated(beh, rate, stop, late_wins, keep_results, abandon='close', max
         res['log'] = [dict((k, v) for k, v in e.items() if k != 't') for e in sched.log]
         res['steps'] = sched.steps
     finally:
-        eqm.mp, eqm.time, eqm.os = olds
+        for nm, v in saved.items():
+            setattr(eqm, nm, v)
+        _os.kill = real_kill
         sched.shutdown()
     return res
 
